@@ -81,7 +81,9 @@ func genC02(rng *rand.Rand, c *Case) {
 	c.Cfg["policy"] = rng.Intn(3)
 	c.Cfg["flavour"] = rng.Intn(2) // 0: 1.5+ login (agreed), 1: 1.2.3 login (name in login)
 	c.Cfg["forks"] = rng.Intn(2)
-	c.Cfg["coalesce"] = rng.Intn(2) // variant execution: handshake and login leave the client in one write
+	// variant execution: 1 handshake and login leave the client in one write; 2 handshake, login, agreed and two
+	// more requests do
+	c.Cfg["coalesce"] = rng.Intn(3)
 	byteMode := c.Cfg["seg_c2s"] == int(simnet.SegByte)
 	maxPayload := 62000
 	if byteMode {
@@ -209,7 +211,15 @@ func c02Session(w *World, variant bool) *c02Outcome {
 			login = c.LoginCoalesced
 			w.Probe("handshake_and_login_coalesced")
 		}
-		if w.Case.Cfg["flavour"] == 1 {
+		burst := variant && w.Case.Cfg["coalesce"] == 2
+		if burst {
+			w.Probe("login_burst_in_one_write")
+		}
+		if burst && w.Case.Cfg["flavour"] == 1 {
+			out.LoggedIn = c.LoginBurst("guest", "", "tester", 7)
+		} else if burst {
+			out.LoggedIn = c.LoginBurst("guest", "", "", 7)
+		} else if w.Case.Cfg["flavour"] == 1 {
 			out.LoggedIn = login("guest", "", "tester", 7)
 		} else {
 			out.LoggedIn = login("guest", "", "", 0)
